@@ -1793,9 +1793,7 @@ impl Sessions {
                 .iter()
                 .flat_map(|sess| sess.exchanges.iter())
                 .filter_map(|exch| exch.as_ref())
-                .all(|exch| {
-                    !matches!(exch.role, Role::Responder(_)) || exch.exch_id != next_exch_id
-                })
+                .all(|exch| exch.exch_id != next_exch_id)
             {
                 break;
             }
